@@ -33,6 +33,13 @@ theorem C07_packet (cfg : String) (hcfg : cfg ∈ supportedConfigs) (b : ABuf) (
     simpa using List.all_eq_true.mp this q hq
   exact packetParse_tiles (fuelFor b) ps hm b p hp
 
+/-- the same for every stack a caller builds by hand (any list of header parsers, classes repeated, prediction on or
+    off), as long as no CoAP parser is in semantic mode -/
+theorem C07_any_stack (ps : List ParserInst) (hm : ∀ q ∈ ps, q.coapMode = .syntactic) (b : ABuf) (p : Packet)
+    (hp : packetParse (fuelFor b) ps b = .ok p) :
+    p.fields.flatMap (·.value.bits) ++ p.payload.bits = b.bits ∧ p.raw = b :=
+  packetParse_tiles (fuelFor b) ps hm b p hp
+
 /-- consequently a no-compression rule reproduces any parsed packet -/
 theorem C07_nocompression_reproduces (cfg : String) (hcfg : cfg ∈ supportedConfigs) (b : ABuf) (ps : List ParserInst) (hf : factory cfg = .ok ps)
     (p : Packet) (hp : packetParse (fuelFor b) ps b = .ok p) (r : Rule) (hn : r.nature = .noCompression) (hfs : r.fields = []) :
